@@ -20,7 +20,7 @@ META = {
 }
 
 PAY = re.compile(r'^&?(mut )?(std::vec::Vec<|std::string::String|std::collections::HashMap<|\[core::Obj\]|\[u8\]|\[nnum::NNum\])')
-COPY_METHODS = ('clone', 'to_vec', 'to_owned', 'shrink_to_fit', 'shrink_to', 'into_owned', 'into_boxed_slice', 'concat', 'repeat')
+COPY_METHODS = ('clone', 'to_vec', 'to_owned', 'shrink_to_fit', 'shrink_to', 'reserve_exact', 'into_owned', 'into_boxed_slice', 'concat', 'repeat')
 
 
 def payload_copies(b):
@@ -58,6 +58,15 @@ def run(F, rep, tier):
             rep.viol('R2.1', 'eval::drop_lhs|value', 'drop_lhs does not pass None as the value', si.loc())
     else:
         rep.viol('R2.1', 'eval::drop_lhs|shape', 'drop_lhs no longer nulls through set_index', dl.loc(0))
+    # every path through the drop closure really nulls the slot
+    if dcl:
+        cb = F.body(dcl[0])
+        sis = {c.bb for c in cb.calls if c.target == 'eval::set_index'}
+        rets = set(cb.return_blocks())
+        if sis and cb.every_path_passes(0, rets, sis):
+            rep.ok('R2.1', 'drop_lhs closure', 'every path nulls the slot (no conditional skip)')
+        else:
+            rep.viol('R2.1', 'eval::drop_lhs|conditional-drop', 'drop_lhs can leave the slot untouched on some path (e.g. depending on the declared type): the operator then receives a shared handle and copies the collection on every op-assign', cb.loc(0))
     si_fn = F.anchor('eval::set_index')
     sb = F.body(si_fn)
     # matches on the value Option<Obj> with a no-op None arm, classified by the enclosing (seq kind, index) arm
@@ -137,7 +146,20 @@ def run(F, rep, tier):
         n3 += 1
         if not mm:
             rep.viol('R2.3', '%s|no-make_mut' % label, '%s no longer mutates through Rc::make_mut' % label, b.loc(0))
-        bad = [(c, last, g) for (c, last, g) in payload_copies(b) if (fn, last) not in exceptions]
+        bodies = [b]
+        seenh = {fn}
+        sth = [c.target for c in b.calls if c.callee.get('rlocal') or c.callee.get('local')]
+        while sth:
+            h = sth.pop()
+            if h in seenh or not F.has_fn(h) or re.search(r'(^eval::evaluate$|impl core::Func>::run|^core::to_key$|NErr|^eval::is_type$|Fmt|fmt)', h) or h in table:
+                continue
+            seenh.add(h)
+            hb = F.body(h)
+            # only helpers that work on a payload handle
+            if any(re.search(r'(Rc<|Vec<|HashMap<|String)', t) for t in (F.fns.get(h, {}).get('inputs') or [])):
+                bodies.append(hb)
+                sth += [c.target for c in hb.calls if c.callee.get('rlocal') or c.callee.get('local')]
+        bad = [(c, last, g) for bx in bodies for (c, last, g) in payload_copies(bx) if (fn, last) not in exceptions and (bx.path, last) not in exceptions]
         for (c, last, g) in bad:
             rep.viol('R2.3', '%s|payload-copy|%s' % (label, last), '%s copies or reallocates a whole payload (%s on %s): k mutations of an unshared collection of n elements cost O(n*k)' % (label, last, g[:60]), c.loc())
         if mm and not bad:
